@@ -58,6 +58,22 @@ def main(tier, seed):
     for k in fam:
         for i in range(fam[k]):
             run.distinct.add((k, i))
+    # valid programs that combine features (closures through host callbacks and library natives, tables shared by reference,
+    # the probes of the known findings): they must end in Ok or an error value as well
+    import probes
+    from cardsem import run_programs
+    named = [("probe:" + k, probes.C01_PROBES[k]) for k in sorted(probes.C01_PROBES)] + \
+            [("idiom:" + k, probes.C06_IDIOMS[k]) for k in sorted(probes.C06_IDIOMS)] + \
+            [("idiom:" + k, probes.C07_IDIOMS[k]) for k in sorted(probes.C07_IDIOMS)]
+    out = run_programs([p for _, p in named], "idioms", os.path.join(workdir("C04-idioms"), "idioms.ndjson"))
+    nid = 0
+    for (name, _), l in zip(named, open(out)):
+        rec = json.loads(l)
+        nid += 1
+        if rec["obs"].get("st") in ("panic", "abort", "hang", "missing"):
+            run.violation(rec["obs"]["st"], name, dict(program=name, detail=str(rec["obs"].get("kind"))[:400]), case=dict(prog=rec["prog"]))
+    run.notes["feature_combining_programs_run_for_totality"] = nid
+    run.evaluations += nid
     run.sample(dict(trace_excerpt=first_records(files[0], 6)))
     run.assumptions += ["families: one wrong-type operand in a generated program, arbitrary (ill-scoped) card trees for the compiler only, recursion beyond the call "
                         "stack (caps 16/64/256), value-stack exhaustion (sizes 4..256), retained data beyond the memory limit, budgets 0/1/2/7/1000 on an "
@@ -66,6 +82,6 @@ def main(tier, seed):
                         "the harness is built with overflow checks and debug assertions on, so arithmetic or assertion panics that release builds hide are seen",
                         "a hang is a run that makes no progress for 30 s (all runs are bounded by their instruction budget)"]
     return run.finish("model_checking",
-                      "hostile inputs of 15 families compiled and run in a crash-isolated driver (panics caught, aborts and hangs turned into records); TLC "
+                      "hostile inputs of 17 families compiled and run in a crash-isolated driver (panics caught, aborts and hangs turned into records); TLC "
                       "validates every history against VmTotal: only Compile(ok|error kind) and Run(ok|error kind) events exist, every case reaches `done`, "
                       "and for the resource families the error kind is the specified one")
